@@ -101,6 +101,10 @@ func handlerOf(k, key string, r *http.Request) (func(http.Handler) http.Handler,
 		return hlog.ProtoHandler(key), r.Proto
 	case "custom":
 		return hlog.CustomHeaderHandler(key, "X-Custom"), r.Header.Get("X-Custom")
+	case "customlc": // header names are case-insensitive: the handler may be configured with any spelling
+		return hlog.CustomHeaderHandler(key, "x-custom"), r.Header.Get("X-Custom")
+	case "customuc":
+		return hlog.CustomHeaderHandler(key, "X-CUSTOM"), r.Header.Get("X-Custom")
 	case "host":
 		return hlog.HostHandler(key), r.Host
 	case "hosttrim":
